@@ -16,7 +16,7 @@ RESP = 'smbus_response::MCTPSMBusContextResponse'
 CTX = "smbus::MCTPSMBusContext::<'_>"
 TRAIT = 'mctp_traits::SMBusMCTPRequestResponse'
 
-ENGINE_VERSION = '12'
+ENGINE_VERSION = '19'
 
 
 def vendor_format_domain(name):
@@ -83,7 +83,7 @@ class Analysis:
                 fn = key[len(CTX) + 2:]
                 if fn == 'process_packet':
                     ent['process_packet'] = dict(key=key, assume=valid_config, hook=vendor_format_domain)
-                else:
+                elif inst['vis'] == 'pub':
                     ent['ctx.' + fn] = dict(key=key)
             m = re.match(r'^(\w+)::(\w+)::<\[u8; (\d+)\]>::(\w+)$', key)
             if m and inst['crate'] == P.meta['crate']:
@@ -131,8 +131,12 @@ class Analysis:
         s['entries'] += 1
         s['leaves'] += stats['leaves']
 
+    GLOBAL_STEP_BUDGET = 12000000
+
     def compute(self, spec, make_args=None, init_know=None):
         it = Interp(self.prog)
+        if self.interp_stats['steps'] > self.GLOBAL_STEP_BUDGET:
+            it.total_steps = 20000      # the run as a whole is over budget: remaining entries fail closed quickly
         it.domain_hook = spec.get('hook')
         ma = make_args or default_args(opts=spec.get('opts'), overrides=spec.get('overrides'))
         try:
@@ -159,7 +163,7 @@ class Analysis:
 
     def run_custom(self, key, make_args, assume=None, hook=None, label=None):
         """Uncached interpretation with custom arguments (summary composition)."""
-        it = Interp(self.prog)
+        it = Interp(self.prog, max_leaves=400, total_steps=300000)
         it.domain_hook = hook
         leaves, na = it.run(key, make_args, assume, label=label)
         stats = dict(it.stats)
